@@ -561,6 +561,10 @@ func genConst(t *rapid.T, in *Instr) {
 		in.CB = rapid.Bool().Draw(t, "constb")
 	default:
 		in.CS = GenStrPtr(t, false, false)
+		if in.CS != nil && rapid.IntRange(0, 9).Draw(t, "constlikebuiltin") == 0 {
+			// a constant whose text happens to be the name of a built-in function: without a source column it is a constant
+			in.CS = Sp(rapid.SampledFrom([]string{"ToUpper", "abs", "+"}).Draw(t, "builtinname"))
+		}
 		in.AsPtr = rapid.Bool().Draw(t, "asptr")
 	}
 }
